@@ -69,6 +69,7 @@ type counter struct {
 	ord   int
 	adds  int
 	reset int
+	field bool // obj is a struct field (see counterOrigins)
 }
 
 // atomicMethod: call is method `name` of atomic2.Int64 on variable v (directly or through a pointer deref).
@@ -146,9 +147,65 @@ func baseVar(info *types.Info, e ast.Expr) *types.Var {
 		case *ast.Ident:
 			v, _ := core.ObjOf(info, x).(*types.Var)
 			return v
+		case *ast.SelectorExpr:
+			// a counter owned by a small struct type (`cur.nread`): the field stands for the counter
+			if f := core.FieldOf(info, x); f != nil && strings.HasSuffix(core.NamedTypePath(derefType(f.Type())), atomicPkg+".Int64") {
+				return f
+			}
 		}
 		return nil
 	}
+}
+
+// anyAtomicAdvance: some atomic2.Int64 is advanced under root, whatever its receiver looks like.
+func anyAtomicAdvance(info *types.Info, root ast.Node) bool {
+	found := false
+	core.InspectAll(root, func(n ast.Node) bool {
+		if call, ok := n.(*ast.CallExpr); ok {
+			if _, name, ok := atomicMethod(info, call); ok && (name == "Add" || name == "Incr" || name == "Set") {
+				found = true
+			}
+		}
+		return true
+	})
+	return found
+}
+
+func derefType(t types.Type) types.Type {
+	if p, ok := t.(*types.Pointer); ok {
+		return p.Elem()
+	}
+	return t
+}
+
+// aliasOf follows a pointer-typed local that is defined once as `&k` (or as a
+// copy of such a pointer) to the counter k; other variables are returned as they are.
+func aliasOf(info *types.Info, scope ast.Node, v *types.Var) *types.Var {
+	for step := 0; step < 4 && v != nil; step++ {
+		if _, isPtr := v.Type().(*types.Pointer); !isPtr || v.IsField() || scope == nil {
+			return v
+		}
+		var ref *ast.Ident
+		core.InspectAll(scope, func(m ast.Node) bool {
+			if id, ok := m.(*ast.Ident); ok && ref == nil && info.Uses[id] == types.Object(v) {
+				ref = id
+			}
+			return true
+		})
+		if ref == nil {
+			return v
+		}
+		o, ok := c03.SoleOrigin(info, scope, ref)
+		if !ok || o.Expr == nil || o.Op != 0 || o.Range || o.Res > 0 || o.Param {
+			return v
+		}
+		w := baseVar(info, o.Expr)
+		if w == nil || w == v {
+			return v
+		}
+		v = w
+	}
+	return v
 }
 
 // paramIndex returns the position of v among the parameters of fd (-1 if it is not one).
@@ -187,7 +244,7 @@ func counterOps(c *core.Ctx, info *types.Info, root ast.Node, v *types.Var, dept
 		if !ok {
 			return true
 		}
-		if recv, name, ok := atomicMethod(info, call); ok && baseVar(info, recv) == v {
+		if recv, name, ok := atomicMethod(info, call); ok && aliasOf(info, root, baseVar(info, recv)) == v {
 			switch name {
 			case "Add", "Incr":
 				*adds++
@@ -236,8 +293,16 @@ func counterOrigins(c *core.Ctx, b c03.MBody, v *types.Var, depth int) (out []*c
 	if v == nil {
 		return nil, true
 	}
+	if v.IsField() {
+		// a field of a struct type of the module: one counter per instance; all operations on the
+		// field anywhere in its package are operations on it
+		if v.Pkg() == nil || !strings.HasPrefix(v.Pkg().Path(), core.Module) {
+			return nil, true
+		}
+		return []*counter{{obj: v, in: b, decl: b.Decl, field: true}}, false
+	}
 	if _, isPtr := v.Type().(*types.Pointer); !isPtr {
-		if v.IsField() || v.Parent() == nil || v.Parent() == v.Pkg().Scope() {
+		if v.Parent() == nil || v.Parent() == v.Pkg().Scope() {
 			return nil, true
 		}
 		return []*counter{{obj: v, in: b, decl: b.Decl}}, false
@@ -381,12 +446,42 @@ func r1(c *core.Ctx) {
 				for _, k := range ks {
 					accumulated[k.obj] = true
 					escaped := false
-					counterOps(c, k.in.Pkg.TypesInfo, k.decl.Body, k.obj, 3, &k.adds, &k.reset, &escaped)
+					cpos := k.obj.Pos()
+					if k.field {
+						cpos = token.NoPos
+						nlit := 0
+						for _, ob := range c03.AllBodies(c) {
+							if ob.Pkg.Types != k.obj.Pkg() || ob.Lit != nil {
+								continue
+							}
+							counterOps(c, ob.Pkg.TypesInfo, ob.Decl.Body, k.obj, 3, &k.adds, &k.reset, &escaped)
+							// the instance is created by a literal of the owning struct type: a loop around that
+							// literal creates a fresh counter per iteration
+							core.InspectAll(ob.Decl.Body, func(m ast.Node) bool {
+								if cl, ok := m.(*ast.CompositeLit); ok {
+									if st, ok := derefType(ob.Pkg.TypesInfo.TypeOf(cl)).Underlying().(*types.Struct); ok {
+										for i := 0; i < st.NumFields(); i++ {
+											if st.Field(i) == k.obj {
+												nlit++
+												cpos = cl.Pos()
+											}
+										}
+									}
+								}
+								return true
+							})
+						}
+						if nlit != 1 {
+							cpos = token.NoPos
+						}
+					} else {
+						counterOps(c, k.in.Pkg.TypesInfo, k.decl.Body, k.obj, 3, &k.adds, &k.reset, &escaped)
+					}
 					switch {
 					case escaped:
 						c.Undecidedf(rule, key, x.Pos(), "the counter's address is handed to code the rule does not follow")
 						bad = true
-					case k.reset == 0 && k.adds > 0 && loopAround(c, b, x, k.obj.Pos(), 3):
+					case k.reset == 0 && k.adds > 0 && loopAround(c, b, x, cpos, 3):
 						bad = true
 						c.Check(rule, key, x.Pos(), false, fmt.Sprintf(
 							"`%s` runs on every iteration of a loop, but the counter is cumulative (only Add, never reset): each iteration adds the whole total again, so `%s` grows by the sum of all totals. "+
@@ -416,11 +511,23 @@ func r1(c *core.Ctx) {
 		}
 		b := b
 		core.InspectAll(b.Decl.Body, func(m ast.Node) bool {
-			vs, ok := m.(*ast.ValueSpec)
-			if !ok {
+			// declared by `var k atomic2.Int64` or by a (parallel) short declaration
+			var names []*ast.Ident
+			switch x := m.(type) {
+			case *ast.ValueSpec:
+				names = x.Names
+			case *ast.AssignStmt:
+				if x.Tok == token.DEFINE {
+					for _, l := range x.Lhs {
+						if id, ok := l.(*ast.Ident); ok && info.Defs[id] != nil {
+							names = append(names, id)
+						}
+					}
+				}
+			default:
 				return true
 			}
-			for _, nm := range vs.Names {
+			for _, nm := range names {
 				v, _ := info.Defs[nm].(*types.Var)
 				if v == nil || !strings.HasSuffix(core.NamedTypePath(v.Type()), atomicPkg+".Int64") {
 					continue
@@ -485,9 +592,9 @@ func r2(c *core.Ctx) {
 			if recv, _, ok := atomicMethod(info, call); ok {
 				if d, isAdv := advance(info, call); isAdv {
 					if addCall == nil {
-						cnt, addCall, addArg = baseVar(info, recv), call, d
+						cnt, addCall, addArg = aliasOf(info, copyFn.Decl, baseVar(info, recv)), call, d
 					}
-					if baseVar(info, recv) == cnt {
+					if aliasOf(info, copyFn.Decl, baseVar(info, recv)) == cnt {
 						addCalls = append(addCalls, call)
 					}
 				}
@@ -583,6 +690,24 @@ func r2(c *core.Ctx) {
 		}
 		return true
 	})
+	inHelper := false
+	core.InspectAll(copyFn.Decl.Body, func(n ast.Node) bool {
+		if call, ok := n.(*ast.CallExpr); ok && !inHelper {
+			inHelper = c03.CalleeHas(c, info, call, 2, func(i *types.Info, m ast.Node) bool {
+				cl, ok := m.(*ast.CallExpr)
+				if !ok {
+					return false
+				}
+				_, name, isM := atomicMethod(i, cl)
+				return isM && (name == "Add" || name == "Incr" || name == "Set")
+			})
+		}
+		return true
+	})
+	if read != nil && addCall == nil && (inHelper || anyAtomicAdvance(info, copyFn.Decl.Body)) {
+		c.Undecidedf(rule, "copy-counter", read.Pos(), "pSyncPipeCopy advances a counter the rule cannot identify (not a local atomic2.Int64 or a field of one)")
+		return
+	}
 	if read != nil && addCall == nil {
 		c.Failf(rule, "copy-counter/every-chunk", read.Pos(), "pSyncPipeCopy copies the replication stream but never adds the copied bytes to a counter: the acknowledged offset (and the PSYNC offset after a reconnect) stays at the start offset, so a reconnect re-requests bytes that were already forwarded (commands applied twice)")
 		return
